@@ -16,7 +16,7 @@ def plan(ctx):
 
 
 def run(ctx):
-    res = sf.run_store(ctx, "C01", ["fiber", "tensor"], plan(ctx), wide=1500 if ctx.quick else 20000, cache=400 if ctx.quick else 6000)
+    res = sf.run_store(ctx, "C01", ["fiber", "tensor", "fiber:maxcoord"], plan(ctx), wide=1500 if ctx.quick else 20000, cache=400 if ctx.quick else 6000)
     from . import c05
     viol, n, ev, vst = c05.side_check(ctx, "C01", "P:C05:wf-throughout", "P:C01:populate-wellformed")
     res["violations"] += viol
